@@ -96,20 +96,21 @@ theorem memberWord_spec (m : Member) (hok : m.ok = true) (ht : m.typeOk = true) 
   rw [e, ← this, Nat.shiftLeft_eq]
   omega
 
-theorem rt_member (p : BitVec 16) (m : Member) (hok : m.ok = true) (ht : m.typeOk = true) :
+theorem rt_member (p : BitVec 16) (m : Member) (hok : m.fits = true) :
     RT (Member.enc p m) (Member.dec p) m := by
-  obtain ⟨a, b, c⟩ := memberWord_spec m hok ht
+  simp only [Member.fits, Bool.and_eq_true] at hok
+  obtain ⟨a, b, c⟩ := memberWord_spec m hok.1 hok.2
   unfold Member.enc Member.dec
   refine (RT.andThen (rt_uvarint _ a) (RT.map _ (rt_reference p m.id))).congr rfl ?_
   rw [b, c]
   cases m; simp
 
-theorem rt_members (p : BitVec 16) (ms : List Member) (hok : Members.ok ms = true) (ht : ∀ m ∈ ms, m.typeOk = true) :
+theorem rt_members (p : BitVec 16) (ms : List Member) (hok : Members.ok ms = true) :
     RT (Members.enc p ms) (Members.dec p) ms := by
   simp only [Members.ok, Bool.and_eq_true, decide_eq_true_eq, List.all_eq_true] at hok
   unfold Members.enc Members.dec
   refine RT.andThen (rt_count _ hok.1) ?_
-  exact RT.times (fun m => m.ok = true ∧ m.typeOk = true) _ _
-    (fun _ m hm => RT.map (fun m => (m, ())) (rt_member p m hm.1 hm.2)) ms () (fun m hm => ⟨hok.2 m hm, ht m hm⟩)
+  exact RT.times (fun m => m.fits = true) _ _
+    (fun _ m hm => RT.map (fun m => (m, ())) (rt_member p m hm)) ms () (fun m hm => hok.2 m hm)
 
 end B6.Model.Records
